@@ -972,7 +972,7 @@ class DefaultCycles(common.Suite):
         for i in range(n):
             natoms = 0 if i % 4 == 0 else rng.randint(0, 6)
             given = None if i % 3 != 2 else rng.randint(1, 7)
-            yield {"natoms": natoms, "given": given, "cls": rng.choice(["MonteCarlo", "Canonical", "GrandCanonical", "Isobaric"]),
+            yield {"natoms": natoms, "given": given, "cls": rng.choice(["MonteCarlo", "Canonical", "GrandCanonical", "Isobaric", "HamiltonianCanonical", "Isotension"]),
                    "seed": rng.randrange(2**31)}
 
     def real(self, case):
@@ -1009,6 +1009,14 @@ class DefaultCycles(common.Suite):
                 mc = Canonical(atoms, temperature=300.0, **kw)
             elif cls == "Isobaric":
                 mc = Isobaric(atoms, temperature=300.0, pressure=0.0, **kw)
+            elif cls == "HamiltonianCanonical":
+                from quansino.mc.canonical import HamiltonianCanonical
+
+                mc = HamiltonianCanonical(atoms, temperature=300.0, **kw)
+            elif cls == "Isotension":
+                from quansino.mc.isotension import Isotension
+
+                mc = Isotension(atoms, temperature=300.0, pressure=0.0, **kw)
             else:
                 mc = GrandCanonical(atoms, exchange_atoms=Atoms("Ar"), temperature=300.0, chemical_potential=0.0,
                                     number_of_exchange_particles=case["natoms"], **kw)
